@@ -9,7 +9,7 @@ import threading
 import types
 
 from ..core import Outcome, Agg, case_hash, jsonable, explore, merge, VERIF_DIR
-from ..sched import CoopLock, CoopRLock, Run, explore_stateful, Abort
+from ..sched import (CoopLock, CoopRLock, CoopSemaphore, CoopBoundedSemaphore, CoopEvent, CoopCondition, Run, explore_stateful, Abort)
 from .. import target  # noqa: F401
 from register_crypto_plugin.ecdsa import _rwlock as RW
 from . import c20curve
@@ -38,7 +38,9 @@ ASSUMPTIONS = [
 def new_rwlock():
     saved = RW.threading
     # every lock type the module could create is replaced by a cooperative one (a real lock would escape the scheduler)
-    RW.threading = types.SimpleNamespace(Lock=CoopLock, RLock=CoopRLock, get_ident=threading.get_ident, current_thread=threading.current_thread)
+    RW.threading = types.SimpleNamespace(Lock=CoopLock, RLock=CoopRLock, Semaphore=CoopSemaphore, BoundedSemaphore=CoopBoundedSemaphore,
+                                         Event=CoopEvent, Condition=CoopCondition, get_ident=threading.get_ident,
+                                         current_thread=threading.current_thread, local=threading.local)
     try:
         lock = RW.RWLock()
     finally:
@@ -53,12 +55,26 @@ def walk(obj, seen=None, path="lock"):
     if id(obj) in seen:
         return out
     seen.add(id(obj))
+    if isinstance(obj, CoopCondition):
+        return [(path, obj)] + walk(obj.lock, seen, path + ".lock")
     if isinstance(obj, CoopLock):
         return [(path, obj)]
     if type(obj).__name__ in ("lock", "RLock", "_RLock") or type(obj).__module__ == "_thread":
         raise SystemExit("a real thread lock is reachable from the RWLock (%s): cannot control it" % path)
     if isinstance(obj, bool) or isinstance(obj, int):
         return [(path, obj)]
+    if obj is None or isinstance(obj, (str, bytes, float)):
+        return [(path, obj)]
+    if isinstance(obj, dict):
+        for k in sorted(obj, key=repr):
+            out += walk(obj[k], seen, path + "[%r]" % (k,))
+        return out + [(path + ".len", len(obj))]
+    if isinstance(obj, (set, frozenset)):
+        return [(path, tuple(sorted(map(repr, obj))))]
+    if isinstance(obj, (list, tuple)) or type(obj).__name__ == "deque":
+        for i, v in enumerate(obj):
+            out += walk(v, seen, path + "[%d]" % i)
+        return out + [(path + ".len", len(obj))]
     d = getattr(obj, "__dict__", None)
     if d:
         for k in sorted(d):
